@@ -59,9 +59,12 @@ Definition tx1_script (c : case) (gas : Z) : list step :=
   ++ (if c_revert c then [SRevert] else [])
   ++ [SCommit; SRefund aF aS (gas_limit - gas); SClear].
 
-(** DeliverTx of the tail tx: plain transfer S -> Z *)
+Definition tail_price : Z := 2.   (* dynamic-fee tx: min(fee cap 3, base fee 1 + tip 1) unibi per gas *)
+
+(** DeliverTx of the tail tx: plain transfer S -> Z, dynamic fee *)
 Definition tx2_script (gas2 : Z) : list step :=
-  [SFee aS aF tail_gas_limit; SMark; SOpenPub; SXfer aS aZ tail_amount; SCommit; SRefund aF aS (tail_gas_limit - gas2); SClear].
+  [SFee aS aF (tail_gas_limit * tail_price); SMark; SOpenPub; SXfer aS aZ tail_amount; SCommit;
+   SRefund aF aS ((tail_gas_limit - gas2) * tail_price); SClear].
 
 Definition deliver_script (c : case) (gas gas2 : Z) : list step := tx1_script c gas ++ tx2_script gas2.
 
